@@ -284,16 +284,32 @@ class HplContradiction(HplPredicate):
 
 
 def _get_reference_table(expr: HplExpression) -> Dict[str, List[HplExpression]]:
+    # references are grouped by their text; a quantified variable is a different
+    # reference in each quantifier that binds that name
     ref_table = {}
-    for obj in expr.iterate():
+
+    def visit(obj: HplExpression, scope: Dict[str, HplExpression]):
         assert isinstance(obj, HplExpression)
+        if obj.is_quantifier:
+            visit(obj.domain, scope)
+            inner = dict(scope)
+            inner[obj.variable] = obj
+            visit(obj.condition, inner)
+            return
         if obj.is_accessor or (obj.is_value and obj.is_variable):
             key = str(obj)
+            root = obj.base_object() if obj.is_accessor else obj
+            if root.is_variable and root.name in scope:
+                key = f'{id(scope[root.name])}:{key}'
             refs = ref_table.get(key)
             if refs is None:
                 refs = []
                 ref_table[key] = refs
             refs.append(obj)
+        for child in obj.children():
+            visit(child, scope)
+
+    visit(expr, {})
     return ref_table
 
 
